@@ -88,7 +88,13 @@ func newTaskFor(c *FmtCase) *sp.Task {
 	for k, v := range c.Tags {
 		tags[k] = v
 	}
-	return sp.NewTask(wf, p, p.Name(), p.CommandPattern, inIPs, p.PathFuncs, p.PortInfo, params, tags, p.Prepend, nil, 1)
+	// every second task belongs to a Go-function process: its command pattern is expanded like any other (wrappers
+	// hand t.Command to ssh or a scheduler, and the checks for missing values live in the expansion)
+	var ce func(*sp.Task)
+	if c.ID%2 == 1 {
+		ce = func(*sp.Task) {}
+	}
+	return sp.NewTask(wf, p, p.Name(), p.CommandPattern, inIPs, p.PathFuncs, p.PortInfo, params, tags, p.Prepend, ce, 1)
 }
 
 func runFmtImpl(in, out string) {
